@@ -47,5 +47,5 @@ Check (C13_unrepaired_refuted :
   exists s o,
     (let '(s1, o1) := h_send_unrepaired init_pst 0 true 3 10 false true 0 in
      let '(s2, o2) := h_send_unrepaired s1 0 true 2 20 false true 0 in
-     let '(s3, o3) := h_established s2 0 true 0 in (s3, o1 ++ o2 ++ o3)) = (s, o) /\
+     let '(s3, o3) := h_established s2 0 2 0 in (s3, o1 ++ o2 ++ o3)) = (s, o) /\
     In (OSent 0) o /\ dials s = [] /\ active s = [(0, 1)] /\ terms 0 o = 0%nat).
